@@ -109,6 +109,10 @@ def build_input(c):
             heads.append("sys_" + e)
             lines.append('%d PUNCH SYS("%s", cnt, nam$, typ$, amt)' % (k, e))
             k += 10
+    if solid.startswith("kin"):
+        heads.append("kin")                 # SYS() does not count kinetic reactants: the amount of the KCl reactant is read separately
+        lines.append('500 PUNCH KIN("Salt")')
+        t.append("RATES\n Salt\n -start\n 10 SAVE PARM(1) * TIME\n -end")
     t.append("USER_PUNCH 1\n -headings %s\n %s" % (" ".join(heads), "\n ".join(lines)))
     d = DIRS[c["dir"]]
     inflow = c.get("inflow", 0)
@@ -133,6 +137,10 @@ def build_input(c):
             t.append("EXCHANGE %d\n X 0.0015\n -equilibrate %d" % (i, i))
     elif solid == "calcite":
         t.append("EQUILIBRIUM_PHASES 1-%d\n Calcite 0 0.004" % n)
+    elif solid.startswith("kin"):
+        # a zero-order source of KCl in the upstream half of the column, integrated with Runge-Kutta or CVODE
+        t.append("KINETICS 1-%d\n Salt\n -formula KCl 1\n -m0 0.03\n -m 0.03\n -parms 1e-10\n -tol 1e-10\n -cvode %s" % (
+            max(1, n // 2), "true" if solid == "kincv" else "false"))
     t.append("END")
     if c["fam"] == "ADV":
         t.append("ADVECTION\n -cells %d\n -shifts %d\n -time_step %r\n -punch_cells 1-%d\n -punch_frequency 1\n -print_frequency 1000" % (
@@ -255,6 +263,11 @@ def run_case(case):
         for cno in list(by_step[st]):
             if cno not in cells:
                 del by_step[st][cno]      # boundary cells 0 / n+1 (constant boundary): not part of the column
+    if solid.startswith("kin"):
+        for cs_ in by_step.values():
+            for r in cs_.values():
+                r["sys_K"] += r.get("kin") or 0.0
+                r["sys_Cl"] += r.get("kin") or 0.0
     if solid != "none":
         # vacuity guard: the whole-cell read-out must really include the solid
         if not any(r["sys_" + e] - r[e] > 1e-6 for cs_ in by_step.values() for r in cs_.values() for e in ("Na", "K", "Ca")):
@@ -364,7 +377,7 @@ def families(tier):
         # S: reactive solids: closed diffusion-only column (inventory incl. solids) and pure advection (balance)
         fam.append(("solids, diffusion-only closed", P(
             "TR", n=[1, 2, 3, 5], len=["equal"], D_dt=[(1e-9, 1e3), (1e-9, 1e6)], shifts=SH, dir=["diffusion_only"], bc=[["closed", "closed"]],
-            stag=[0], pat=PATTERNS, inflow=[0], disp=[0.0], mode=["plain"], solid=["exchange", "calcite"])))
+            stag=[0], pat=PATTERNS, inflow=[0], disp=[0.0], mode=["plain"], solid=["exchange", "calcite", "kinrk", "kincv"])))
         fam.append(("solids, pure advective TRANSPORT", P(
             "TR", n=[1, 2, 3, 5], len=["equal", "growing"], D_dt=[(0.0, 1e3)], shifts=[3], dir=["forward", "back"],
             bc=[["flux", "flux"], ["constant", "flux"], ["closed", "closed"]], stag=[0], pat=PATTERNS, inflow=[0, 1], disp=[0.0], mode=["plain"],
@@ -388,7 +401,7 @@ def families(tier):
             "ADV", n=N + NL, shifts=[1, 2, 3, 10], dt=[1e3], dir=["forward"], pat=PATTERNS, inflow=[0, 1], solid=["none", "exchange", "calcite"])))
         fam.append(("solids, diffusion-only closed", P(
             "TR", n=N + NL, len=["equal"], D_dt=[(1e-9, 1e3), (3e-10, 1e6), (1e-9, 1e6)], shifts=SH, dir=["diffusion_only"], bc=[["closed", "closed"]],
-            stag=[0], pat=PATTERNS, inflow=[0], disp=[0.0], mode=["plain"], solid=["exchange", "calcite"])))
+            stag=[0], pat=PATTERNS, inflow=[0], disp=[0.0], mode=["plain"], solid=["exchange", "calcite", "kinrk", "kincv"])))
         fam.append(("solids, pure advective TRANSPORT", P(
             "TR", n=N + NL, len=["equal", "growing"], D_dt=[(0.0, 1e3)], shifts=[3, 10], dir=["forward", "back"], bc=BC3,
             stag=[0], pat=PATTERNS, inflow=[0, 1], disp=[0.0], mode=["plain"], solid=["exchange", "calcite"])))
